@@ -215,6 +215,9 @@ func check(c Case, lp *loop) string {
 			}
 			pm := construct(d)
 			_ = append(pm, 0xEE, 0xEE, 0xEE, 0xEE)
+			for i := range pm {
+				pm[i] ^= 0xFF // ... and may overwrite it
+			}
 		}
 	})
 	if p := ev.Try(func() { m = construct(c) }); p != "" {
